@@ -281,3 +281,34 @@ Proof.
   - now apply discover_one_sound.
   - now apply IH.
 Qed.
+
+(* ---------- discovery cache ---------- *)
+
+Lemma cache_call_inv enabled max_entries st expired fresh :
+  st = None \/ st = Some fresh ->
+  fst (cache_call enabled max_entries st expired fresh) = fresh /\
+  (snd (cache_call enabled max_entries st expired fresh) = None \/
+   snd (cache_call enabled max_entries st expired fresh) = Some fresh).
+Proof.
+  intros Hst. unfold cache_call. destruct enabled; cbn [negb]; [|split; [reflexivity|exact Hst]].
+  destruct Hst as [->| ->].
+  - cbn. split; [reflexivity|]. destruct ((0 <? max_entries) && (max_entries <? zlen fresh)); auto.
+  - destruct fresh as [|x l].
+    + cbn. split; [reflexivity|].
+      match goal with |- context [if ?c then _ else _] => destruct c end; auto.
+    + destruct expired; cbn [fst snd].
+      * split; [reflexivity|]. destruct ((0 <? max_entries) && (max_entries <? zlen (x :: l))); auto.
+      * split; [reflexivity|]. now right.
+Qed.
+
+(* over an unchanged bucket every call returns the wrapped lister's listing, whatever the
+   pattern of hits, misses and expiries *)
+Theorem cache_transparent enabled max_entries fresh : forall calls st,
+  st = None \/ st = Some fresh ->
+  Forall (fun l => l = fresh) (cache_calls enabled max_entries st fresh calls).
+Proof.
+  induction calls as [|e calls IH]; intros st Hst; cbn [cache_calls]; [constructor|].
+  destruct (cache_call_inv enabled max_entries st e fresh Hst) as [H1 H2].
+  destruct (cache_call enabled max_entries st e fresh) as [l st'] eqn:E. cbn [fst snd] in *.
+  constructor; [exact H1|]. now apply IH.
+Qed.
